@@ -182,6 +182,61 @@ func runMw(prios []int) Obs {
 	return Obs{Trace: trace}
 }
 
+// script-level middleware registration: $server->middleware(fn, prio) ... $server->get('/x', fn),
+// then the real ServeMux (Server.GetSource) serves one request; every layer writes its own marker
+// through its own Response object, so the body is the trace and the recorder counts header commits.
+func runMwScript(prios []int) (o Obs) {
+	var sb strings.Builder
+	sb.WriteString("use Net\\Http\\Server;\n$server = new Server('127.0.0.1', 0);\n")
+	for i, p := range prios {
+		fmt.Fprintf(&sb, "$server->middleware(function ($request, $response, $next) { $response->write(\"E%d;\"); $next($request, $response); $response->write(\"X%d;\"); }, %d);\n", i, i, p)
+	}
+	sb.WriteString("$server->get('/x', function ($req, $res) { $res->write(\"F;\"); });\n")
+	defer func() {
+		if r := recover(); r != nil {
+			o.Err = fmt.Sprint(r)
+		}
+	}()
+	vm, p := vrun.NewVM()
+	prog, acl := p.ParseString(sb.String(), "c13mw.zy")
+	if acl != nil {
+		return Obs{Err: "parse: " + acl.AsString()}
+	}
+	vars := p.GetVariables()
+	ctx := vm.CreateContext(vars)
+	if _, c := prog.GetValue(ctx); c != nil {
+		return Obs{Err: "run: " + c.AsString()}
+	}
+	var mux http.Handler
+	for _, v := range vars {
+		if v.GetName() == "server" {
+			val, _ := ctx.GetVariableValue(v)
+			if gs, ok := val.(data.GetSource); ok {
+				mux, _ = gs.GetSource().(http.Handler)
+			}
+		}
+	}
+	if mux == nil {
+		return Obs{Err: "no server mux"}
+	}
+	rec := &counting{ResponseRecorder: httptest.NewRecorder()}
+	mux.ServeHTTP(rec, httptest.NewRequest("GET", "/x", nil))
+	ob := observe(rec)
+	for _, part := range strings.Split(ob.Body, ";") {
+		switch {
+		case part == "F":
+			ob.Trace = append(ob.Trace, [2]int{2, 0})
+		case strings.HasPrefix(part, "E"):
+			n, _ := strconv.Atoi(part[1:])
+			ob.Trace = append(ob.Trace, [2]int{0, n})
+		case strings.HasPrefix(part, "X"):
+			n, _ := strconv.Atoi(part[1:])
+			ob.Trace = append(ob.Trace, [2]int{1, n})
+		}
+	}
+	return ob
+}
+
 var _ = data.NewIntValue
 var _ = sort.Strings
 
@@ -196,6 +251,8 @@ func main() {
 		switch {
 		case c.Kind == "mw":
 			enc.Encode(runMw(c.Prios))
+		case c.Kind == "mwscript":
+			enc.Encode(runMwScript(c.Prios))
 		case c.Mode == "script":
 			enc.Encode(runScript(c.Ops))
 		default:
